@@ -155,6 +155,10 @@ func (ex *Exec) inlineCall(st *State, fr *Frame, body *ssa.Function, cs *FuncSpe
 // invokeCall: interface method call, resolved by the interface's contract.
 func (ex *Exec) invokeCall(st *State, fr *Frame, call *ssa.CallCommon, recv *Val, args []*Val, instr ssa.Instruction, k func(st *State, res *Val)) {
 	it := ex.env.resolve(call.Value.Type())
+	if tp, ok := it.(*types.TypeParam); ok {
+		// method call on a value of type-parameter type: use the contract of the constraint interface
+		it = tp.Constraint()
+	}
 	m := call.Method
 	key := ""
 	if n, ok := types.Unalias(it).(*types.Named); ok {
@@ -994,7 +998,7 @@ func (ex *Exec) card(dom *Term, ks Sort) *Term {
 		cd := func(x *Term) *Term { return App(name, is, x) }
 		one, zero := ex.intConst(1), ex.intConst(0)
 		ex.trusted["finite-set cardinality axioms for len(map)"] = true
-		ex.addAxiom(Forall([]*Term{d}, And(ex.sle(zero, cd(d)), Implies(ex.slt(zero, cd(d)), Select(d, App(wit, ks, d)))), []*Term{cd(d)}))
+		ex.addAxiom(Forall([]*Term{d}, And(ex.sle(zero, cd(d)), ex.sle(cd(d), ex.intConst(maxSliceLen)), Implies(ex.slt(zero, cd(d)), Select(d, App(wit, ks, d)))), []*Term{cd(d)}))
 		st1 := Store(d, k, TTrue)
 		ex.addAxiom(Forall([]*Term{d, k}, Eq(cd(st1), ex.iadd(cd(d), Ite(Select(d, k), zero, one))), []*Term{cd(st1)}))
 		st0 := Store(d, k, TFalse)
